@@ -424,3 +424,309 @@ Proof.
   destruct (pick_head _ _ _ E) as [[t Ht] _].
   apply IHfuel. pose proof (remove_heads_lt n seqs t Ht). lia.
 Qed.
+
+(* ------------------------------------------------------------------------------------------------ *)
+(* properties of the specification loop needed at the class-table level *)
+
+Lemma in_tail_false : forall c seqs, in_tail c seqs = false <-> (forall s, In s seqs -> ~ In c (tl s)).
+Proof.
+  unfold in_tail. induction seqs as [|s rest IH]; simpl.
+  - split; auto.
+  - rewrite orb_false_iff, IH, mem_false. split.
+    + intros [H1 H2] s0 [E|Hi]; subst; auto.
+    + intros H. split; auto.
+Qed.
+
+Lemma remove_heads_id : forall c Y, (forall s, In s Y -> ~ In c s) -> remove_heads c Y = Y.
+Proof.
+  induction Y as [|s rest IH]; simpl; intros H; auto.
+  rewrite IH by (intros; apply H; auto). f_equal.
+  destruct s as [|h t]; simpl; auto.
+  destruct (Nat.eqb h c) eqn:E; auto. apply Nat.eqb_eq in E. subst.
+  exfalso. apply (H (c :: t)); simpl; auto.
+Qed.
+
+Lemma spec_cons : forall f c Y acc, (forall s, In s Y -> ~ In c s) ->
+  spec_loop (S f) ([c] :: Y) acc = spec_loop f ([] :: Y) (c :: acc).
+Proof.
+  intros f c Y acc H. cbn [spec_loop forallb is_nil andb pick].
+  assert (E : in_tail c ([c] :: Y) = false).
+  { apply in_tail_false. intros s [Es|Hi]; subst; simpl; auto.
+    intros Hc. apply (H s Hi). destruct s; simpl in *; auto. }
+  rewrite E. cbn [remove_heads map drop_head]. rewrite Nat.eqb_refl.
+  fold (remove_heads c Y). rewrite remove_heads_id; auto.
+Qed.
+
+Lemma pick_nil_all : forall Y todo, pick ([] :: Y) todo = pick Y todo.
+Proof.
+  induction todo as [|s rest IH]; simpl; auto. destruct s; auto. rewrite IH. reflexivity.
+Qed.
+
+Lemma spec_nil_cons : forall f Y acc, spec_loop f ([] :: Y) acc = spec_loop f Y acc.
+Proof.
+  induction f; intros; simpl; auto.
+  destruct (forallb is_nil Y); auto.
+  rewrite pick_nil_all. destruct (pick Y Y); auto.
+  apply IHf.
+Qed.
+
+Lemma spec_single : forall m fuel acc, NoDup m -> length m < fuel ->
+  spec_loop fuel [m; []] acc = Ok (rev acc ++ m).
+Proof.
+  induction m as [|h t IH]; intros fuel acc Hn Hf; destruct fuel; try (simpl in Hf; lia).
+  - simpl. rewrite app_nil_r. reflexivity.
+  - inversion Hn; subst.
+    cbn [spec_loop forallb is_nil andb pick].
+    assert (E : in_tail h [h :: t; []] = false).
+    { apply in_tail_false. intros s [Es|[Es|[]]]; subst; simpl; auto. }
+    rewrite E. cbn [remove_heads map drop_head]. rewrite Nat.eqb_refl.
+    rewrite IH; auto. 2:{ simpl in Hf. lia. }
+    simpl. rewrite <- app_assoc. reflexivity.
+Qed.
+
+Lemma spec_loop_props : forall fuel Y acc l,
+  spec_loop fuel Y acc = Ok l -> nodup_each Y -> NoDup acc ->
+  (forall x s, In x acc -> In s Y -> ~ In x s) ->
+  NoDup l /\ (forall x, In x l -> In x acc \/ exists s, In s Y /\ In x s) /\ exists l', l = rev acc ++ l'.
+Proof.
+  induction fuel; intros Y acc l Hs Hn Ha Hd; simpl in Hs; try discriminate.
+  destruct (forallb is_nil Y).
+  - inversion Hs; subst. split; [|split].
+    + apply NoDup_rev; auto.
+    + intros x Hx. left. apply in_rev; auto.
+    + exists []. rewrite app_nil_r; auto.
+  - destruct (pick Y Y) as [c|] eqn:E; try discriminate.
+    destruct (pick_head _ _ _ E) as [[t Ht] Hnt].
+    assert (Hca : ~ In c acc). { intros Hc. apply (Hd c (c :: t)); simpl; auto. }
+    pose proof (proj1 (in_tail_false c Y) Hnt) as Htl.
+    destruct (IHfuel _ _ _ Hs) as [H1 [H2 [l' H3]]].
+    + apply remove_heads_nodup; auto.
+    + constructor; auto.
+    + intros x s Hx Hs'. unfold remove_heads in Hs'. apply in_map_iff in Hs'.
+      destruct Hs' as [s0 [Es Hs0]]. subst s. intros Hin.
+      destruct Hx as [Ex|Hx].
+      * subst x. specialize (Htl s0 Hs0). destruct s0 as [|h t0]; simpl in *; auto.
+        destruct (Nat.eqb h c) eqn:Eh; auto.
+        apply Nat.eqb_neq in Eh. destruct Hin; auto.
+      * apply (Hd x s0 Hx Hs0). eapply drop_head_incl; eauto.
+    + split; [auto|split].
+      * intros x Hx. destruct (H2 x Hx) as [[Ex|Hx']|[s [Hs1 Hs2]]].
+        -- subst. right. exists (x :: t). simpl; auto.
+        -- auto.
+        -- right. unfold remove_heads in Hs1. apply in_map_iff in Hs1.
+           destruct Hs1 as [s0 [Es Hs0]]. subst s. exists s0. split; auto.
+           eapply drop_head_incl; eauto.
+      * exists (c :: l'). rewrite H3. simpl. rewrite <- app_assoc. reflexivity.
+Qed.
+
+(* ------------------------------------------------------------------------------------------------ *)
+(* class tables *)
+
+Definition good_mro (i : nat) (m : list nat) : Prop :=
+  exists m', m = i :: m' /\ NoDup m /\ forall x, In x m' -> x < i.
+Definition good_done (done : list (list nat)) : Prop :=
+  forall i, i < length done -> good_mro i (nth i done []).
+
+Lemma check_duplicates_NoDup : forall l, check_duplicates l = true <-> NoDup l.
+Proof.
+  induction l as [|o rest IH]; simpl.
+  - split; auto. constructor.
+  - rewrite andb_true_iff, negb_true_iff, mem_false, IH. split.
+    + intros [H1 H2]. constructor; auto.
+    + intros H. inversion H; auto.
+Qed.
+
+Lemma wf_bases_lt : forall n bases, wf_bases n bases = true <-> (forall b, In b bases -> b < n).
+Proof.
+  unfold wf_bases. intros. rewrite forallb_forall. split; intros H b Hb.
+  - apply Nat.ltb_lt. auto.
+  - apply Nat.ltb_lt. auto.
+Qed.
+
+Section ClassStep.
+  Variable done : list (list nat).
+  Variable bases : list nat.
+  Hypothesis Hgood : good_done done.
+  Hypothesis Hwf : wf_bases (length done) bases = true.
+  Hypothesis Hnd : check_duplicates bases = true.
+
+  Let n := length done.
+  Let Y := map (mro_of done) bases ++ [bases].
+
+  Lemma step_Y_lt : forall s x, In s Y -> In x s -> x < n.
+  Proof.
+    intros s x Hs Hx. unfold Y in Hs. apply in_app_or in Hs. destruct Hs as [Hs|[Hs|[]]].
+    - apply in_map_iff in Hs. destruct Hs as [b [Eb Hb]]. subst s.
+      pose proof (proj1 (wf_bases_lt _ _) Hwf b Hb) as Hlt.
+      destruct (Hgood b Hlt) as [m' [Em [_ Hm]]]. unfold mro_of in Hx. rewrite Em in Hx.
+      destruct Hx as [Ex|Hx]; subst; auto. specialize (Hm x Hx). unfold n. lia.
+    - subst s. apply (proj1 (wf_bases_lt _ _) Hwf x Hx).
+  Qed.
+
+  Lemma step_Y_nodup : nodup_each Y.
+  Proof.
+    unfold nodup_each, Y. apply Forall_app. split.
+    - apply Forall_forall. intros s Hs. apply in_map_iff in Hs. destruct Hs as [b [Eb Hb]]. subst s.
+      pose proof (proj1 (wf_bases_lt _ _) Hwf b Hb) as Hlt.
+      destruct (Hgood b Hlt) as [m' [Em [Hn _]]]. exact Hn.
+    - constructor; auto. apply check_duplicates_NoDup; auto.
+  Qed.
+
+  Lemma step_self_fresh : forall s, In s Y -> ~ In n s.
+  Proof. intros s Hs Hn. pose proof (step_Y_lt s n Hs Hn). lia. Qed.
+
+  (* pytype's compute_mro (without the duplicate check firing) is pmerge with acc = [self] *)
+  Lemma step_py_is_pmerge : forall dupcheck, class_mro_py dupcheck done n bases = pmerge [n] Y.
+  Proof.
+    intros dupcheck. unfold class_mro_py, class_mro_py_gen. rewrite Hnd. rewrite andb_false_r.
+    fold Y. fold (merge_py ([n] :: Y)). rewrite merge_py_spec, pmerge_spec.
+    rewrite map_dedup_id.
+    2:{ constructor. repeat constructor; simpl; auto. apply step_Y_nodup. }
+    unfold spec_merge. change (total_len ([n] :: Y)) with (S (total_len Y)).
+    rewrite spec_cons by apply step_self_fresh. rewrite spec_nil_cons. reflexivity.
+  Qed.
+
+  Lemma step_agree : forall dupcheck,
+    class_mro_py dupcheck done n bases = class_mro_c done n bases.
+  Proof.
+    intros dupcheck. rewrite step_py_is_pmerge. unfold class_mro_c. fold n.
+    destruct bases as [|b [|b2 rest]] eqn:Eb.
+    - rewrite Hnd. reflexivity.
+    - (* single base: the fast path *)
+      assert (Hlt : b < length done).
+      { apply (proj1 (wf_bases_lt _ _) Hwf). simpl; auto. }
+      destruct (Hgood b Hlt) as [m' [Em [Hn Hm]]].
+      rewrite pmerge_spec. unfold spec_merge, Y. simpl map. simpl app. unfold mro_of at 1 2. rewrite Em.
+      inversion Hn; subst.
+      cbn [spec_loop forallb is_nil andb pick total_len fold_right].
+      assert (E : in_tail b [b :: m'; [b]] = false).
+      { apply in_tail_false. intros s [Es|[Es|[]]]; subst; simpl; auto. }
+      rewrite E. cbn [remove_heads map drop_head]. rewrite Nat.eqb_refl.
+      rewrite spec_single; auto. 2:{ simpl. lia. }
+      unfold mro_of. rewrite Em. reflexivity.
+    - rewrite Hnd. reflexivity.
+  Qed.
+
+  Lemma step_good : forall m, class_mro_c done n bases = Ok m -> good_done (done ++ [m]).
+  Proof.
+    intros m Hm. rewrite <- (step_agree false), step_py_is_pmerge, pmerge_spec in Hm.
+    unfold spec_merge in Hm.
+    destruct (spec_loop_props _ _ _ _ Hm step_Y_nodup) as [H1 [H2 [l' H3]]].
+    - simpl. repeat constructor. simpl; auto.
+    - intros x s [Ex|[]] Hs. subst x. apply step_self_fresh; auto.
+    - simpl in H3. intros i Hi. rewrite app_length in Hi. simpl in Hi.
+      destruct (Nat.eq_dec i (length done)) as [Ei|Ni].
+      + subst i. rewrite app_nth2 by lia. rewrite Nat.sub_diag. simpl.
+        exists l'. split; [exact H3|]. split; [exact H1|].
+        intros x Hx. assert (Hxl : In x m) by (rewrite H3; simpl; auto).
+        destruct (H2 x Hxl) as [[Ex|[]]|[s [Hs1 Hs2]]].
+        * subst x. rewrite H3 in H1. inversion H1; subst. tauto.
+        * apply (step_Y_lt s x Hs1 Hs2).
+      + rewrite app_nth1 by lia. apply Hgood. lia.
+  Qed.
+End ClassStep.
+
+Lemma run_table_agree : forall dupcheck todo done,
+  good_done done -> wf_table_from (length done) todo = true -> no_dup_bases todo = true ->
+  run_table (class_mro_py dupcheck) done todo = run_table class_mro_c done todo /\
+  good_done (table_mros (run_table class_mro_c done todo)).
+Proof.
+  induction todo as [|bases rest IH]; intros done Hg Hwf Hnd; simpl.
+  - split; auto.
+  - simpl in Hwf, Hnd. apply andb_true_iff in Hwf. destruct Hwf as [Hw1 Hw2].
+    apply andb_true_iff in Hnd. destruct Hnd as [Hn1 Hn2].
+    rewrite (step_agree done bases Hg Hw1 Hn1 dupcheck).
+    destruct (class_mro_c done (length done) bases) as [m| | |] eqn:E; simpl; auto.
+    apply IH; auto.
+    + eapply step_good; eauto.
+    + rewrite app_length. simpl. rewrite Nat.add_1_r. exact Hw2.
+Qed.
+
+Lemma good_done_nil : good_done [].
+Proof. intros i Hi. simpl in Hi. lia. Qed.
+
+Lemma mro_agree_lemma : forall dupcheck H,
+  wf_table H = true -> no_dup_bases H = true -> mros_py dupcheck H = mros_c H.
+Proof. intros. unfold mros_py, mros_c. apply run_table_agree; auto. apply good_done_nil. Qed.
+
+Lemma mros_good_lemma : forall H i,
+  wf_table H = true -> no_dup_bases H = true -> i < length (table_mros (mros_c H)) ->
+  exists m', nth i (table_mros (mros_c H)) [] = i :: m' /\ NoDup (i :: m') /\ forall x, In x m' -> x < i.
+Proof.
+  intros H i Hw Hn Hi.
+  destruct (run_table_agree false H [] good_done_nil Hw Hn) as [_ Hg].
+  destruct (Hg i Hi) as [m' [E [H1 H2]]]. exists m'. rewrite <- E. auto.
+Qed.
+
+(* with the duplicate check, agreement needs no hypothesis on the bases *)
+Lemma step_agree_dupcheck : forall done bases,
+  good_done done -> wf_bases (length done) bases = true ->
+  class_mro_py true done (length done) bases = class_mro_c done (length done) bases.
+Proof.
+  intros done bases Hg Hw. destruct (check_duplicates bases) eqn:E.
+  - apply step_agree; auto.
+  - unfold class_mro_py, class_mro_py_gen, class_mro_c. rewrite E. simpl.
+    destruct bases as [|b [|b2 rest]]; simpl in E; try discriminate; reflexivity.
+Qed.
+
+Lemma check_duplicates_step_good : forall done bases m,
+  good_done done -> wf_bases (length done) bases = true ->
+  class_mro_c done (length done) bases = Ok m -> good_done (done ++ [m]).
+Proof.
+  intros done bases m Hg Hw Hm. destruct (check_duplicates bases) eqn:E.
+  - eapply step_good; eauto.
+  - unfold class_mro_c in Hm. rewrite E in Hm.
+    destruct bases as [|b [|b2 rest]]; simpl in E; try discriminate.
+Qed.
+
+Lemma run_table_agree_dupcheck : forall todo done,
+  good_done done -> wf_table_from (length done) todo = true ->
+  run_table (class_mro_py true) done todo = run_table class_mro_c done todo.
+Proof.
+  induction todo as [|bases rest IH]; intros done Hg Hwf; simpl; auto.
+  simpl in Hwf. apply andb_true_iff in Hwf. destruct Hwf as [Hw1 Hw2].
+  rewrite (step_agree_dupcheck done bases Hg Hw1).
+  destruct (class_mro_c done (length done) bases) as [m| | |] eqn:E; simpl; auto.
+  apply IH.
+  - eapply check_duplicates_step_good; eauto.
+  - rewrite app_length. simpl. rewrite Nat.add_1_r. exact Hw2.
+Qed.
+
+Lemma mro_agree_fixed_lemma : forall H, wf_table H = true -> mros_py true H = mros_c H.
+Proof. intros. unfold mros_py, mros_c. apply run_table_agree_dupcheck; auto. apply good_done_nil. Qed.
+
+(* neither run ever ends in the model-artefact outcome *)
+Lemma run_table_not_bad : forall f,
+  (forall d s b, f d s b <> OutOfFuel /\ f d s b <> Crash) ->
+  forall todo done m i, run_table f done todo <> TableBad m i.
+Proof.
+  intros f Hf. induction todo as [|bases rest IH]; intros done m i; simpl; try discriminate.
+  destruct (f done (length done) bases) eqn:E; try discriminate; auto.
+  - exfalso. apply (proj1 (Hf done (length done) bases)); auto.
+  - exfalso. apply (proj2 (Hf done (length done) bases)); auto.
+Qed.
+
+Lemma class_mro_py_total : forall sing dupcheck d s b,
+  class_mro_py_gen sing dupcheck d s b <> OutOfFuel /\ class_mro_py_gen sing dupcheck d s b <> Crash.
+Proof.
+  intros. unfold class_mro_py_gen.
+  destruct (dupcheck && negb (check_duplicates b)).
+  - split; discriminate.
+  - apply merge_py_gen_fuel_lemma.
+Qed.
+
+Lemma class_mro_c_total : forall d s b, class_mro_c d s b <> OutOfFuel /\ class_mro_c d s b <> Crash.
+Proof.
+  intros. unfold class_mro_c. destruct b as [|b1 [|b2 rest]].
+  - destruct (check_duplicates []); [apply pmerge_fuel_lemma|split; discriminate].
+  - split; discriminate.
+  - destruct (check_duplicates (b1 :: b2 :: rest)); [apply pmerge_fuel_lemma|split; discriminate].
+Qed.
+
+Lemma tables_not_bad_lemma : forall dupcheck H m i,
+  mros_py dupcheck H <> TableBad m i /\ mros_c H <> TableBad m i.
+Proof.
+  intros. split.
+  - apply run_table_not_bad. intros. apply class_mro_py_total.
+  - apply run_table_not_bad. apply class_mro_c_total.
+Qed.
